@@ -38,6 +38,17 @@ theorem C19_log_response_stage_total (r : LogRec) (b : Bytes) :
     ∃ ev, r.stageHttpResponse2 Variant.fixed (some b) = .ok ev :=
   stageHttpResponse2_total r b
 
+/-- the maximum length is honoured: with an integer detail level n > 0 the logged response payload has at most
+    n characters plus the '...' marker, whatever the bytes are (one character per byte at most, also for the
+    replacement characters) -/
+theorem C19_log_response_payload_bounded (r : LogRec) (b : Bytes) (n : Nat) (hn : n ≠ 0) (hm : r.httpMax = some n)
+    (up : Str) (h : r.respPayloadText Variant.fixed b = .ok up) : up.length ≤ n + 3 :=
+  respPayloadText_bounded r b n hn hm up h
+
+/-- non-vacuity / what the fixed code logs for DESIGN's witness (reply `c3 a9`, detail 1): U+FFFD and the marker -/
+example : (LogRec.respPayloadText Variant.fixed { httpLevel := some (.maxLen 1), httpMax := some 1 } [0xC3, 0xA9]).toOption
+    = some [Char.ofNat 0xFFFD, '.', '.', '.'] := by decide +kernel
+
 /-- the defect repaired by fix 2589685: reply `b'\xc3\xa9'`, detail_level = 1 ⇒ UnicodeDecodeError -/
 theorem C19_log_response_stage_failed_before_fix :
     raisedName (LogRec.stageHttpResponse2 ⟨false, true, true⟩
